@@ -438,19 +438,25 @@ class KafkaCodec(object):
 
             if codec == CODEC_NONE:
                 yield offset, Message(magic, att, key, value, timestamp)
+                return
 
             elif codec == CODEC_GZIP:
-                gz = gzip_decode(value)
-                for offset, msg in KafkaCodec._decode_message_set_iter(gz):
-                    yield offset, msg
+                inner = gzip_decode(value)
 
             elif codec == CODEC_SNAPPY:
-                snp = snappy_decode(value)
-                for offset, msg in KafkaCodec._decode_message_set_iter(snp):
-                    yield offset, msg
+                inner = snappy_decode(value)
 
             else:
                 raise ProtocolError("Unsupported codec 0b{:b}".format(codec))
+
+            # Message format 1 stores relative offsets inside a compressed
+            # wrapper; the wrapper carries the absolute offset of the last
+            # inner message (KIP-31).
+            messages = list(KafkaCodec._decode_message_set_iter(inner))
+            if messages:
+                base = offset - messages[-1].offset
+                for relative, msg in messages:
+                    yield base + relative, msg
 
         if magic == 0:
             return v0(data, offset, cur)
